@@ -149,9 +149,9 @@ theorem inv_step {s : Net} {op : Op} (hnd : ∀ c d, op ≠ .disconnect c d) (hI
     | ann hint hop ha hd hadv =>
       have h := mem_announceAdvs hadv
       exact ⟨linked_step hnd (mem_peersOf hd).1, fun _ _ => ⟨[], h.path, rfl, by rw [h.origin]; rfl⟩⟩
-    | wdr hop ha hcidr hd hadv =>
+    | wdr hint hop ha hcidr hd hadv =>
       refine ⟨linked_step hnd (mem_peersOf hd).1, fun hw => ?_⟩
-      rw [hadv] at hw; simp [withdrawAdv] at hw
+      rw [(mem_withdrawAdvs hadv).wd] at hw; cases hw
     | fwd a m hm hl ha hb hd hne hns hself hseen hsb hlim hwire hadv =>
       refine ⟨linked_step hnd (mem_peersOf hd).1, fun hw hr => ?_⟩
       have hw' : m.wd = false := by rw [hadv, fwdAdv_wd] at hw; exact hw
